@@ -272,6 +272,9 @@ def judge(doc, label):
             if why:
                 return "returned", f"returned a document that violates the picosvg grammar: {'; '.join(why)[:400]}", r
             return "returned", None, r
+        if res["type"] == "MemoryError":
+            # the 1 GiB address-space limit was hit and Python turned that into an exception: unbounded growth, not a rejection
+            return "MEMORY", f"MemoryError under the {1} GiB address-space limit (the conversion grew without bound instead of rejecting the document)", r
         return "raised:" + res["type"], None, r
     if v in ("TIMEOUT", "MEMORY", "CRASH"):
         tr = r.get("trace") or []
